@@ -2,7 +2,7 @@
    Gallina model (C06_Model) of Haplotypes.read / check_header / to_str after
    fixes/C06_short_comment.patch and fixes/C06_norecords_header.patch. *)
 From HV Require Import Prelude C06_Model C06_Check C06_Proofs C06_Proofs2 C06_Proofs3 C06_Proofs4 C06_Proofs5
-  C06_Proofs6 C06_Proofs7 C06_Proofs8 C06_Proofs9 C06_Proofs10 C06_Proofs11 C06_Proofs12.
+  C06_Proofs6 C06_Proofs7 C06_Proofs8 C06_Proofs9 C06_Proofs10 C06_Proofs11 C06_Proofs12 C06_Proofs13.
 
 (* ---- comment lines ---------------------------------------------------------- *)
 
@@ -465,3 +465,45 @@ Example C06_hap_roundtrip_example :
        /\ read ex_cfg None lines = Ok (strip_data ex_data, []).
 Proof. exact hap_roundtrip_example. Qed.
 Print Assumptions C06_hap_roundtrip_example.
+
+(* ---- the declared format plays no part in reading ----------------------------------------------------
+   (the reader converts by the class's annotated type; only the writer uses the format).  [same_decl]:
+   equal lines, or two declaration lines of one line type naming the same field - format, description,
+   further fields arbitrary; [same_line] lifts it to files.  Holds for the pinned tree as well. *)
+
+Theorem C06_declared_format_irrelevant_header :
+  forall legacy c cv softly hs hs', Forall2 same_decl hs hs' ->
+  check_header legacy c cv softly hs = check_header legacy c cv softly hs'.
+Proof. exact declared_format_irrelevant_header. Qed.
+Print Assumptions C06_declared_format_irrelevant_header.
+
+Theorem C06_declared_format_irrelevant_read :
+  forall legacy nc c sel ls ls', Forall2 same_line ls ls' ->
+  read_mode legacy nc c sel ls = read_mode legacy nc c sel ls'.
+Proof. exact declared_format_irrelevant_read. Qed.
+Print Assumptions C06_declared_format_irrelevant_read.
+
+(* inhabited by every declaration the writer emits: any two formats and descriptions *)
+Theorem C06_decl_lines_same_decl :
+  forall t n f d f' d', is_type_letter t = true -> ~ In cTAB n ->
+  same_decl (decl_line t (mkx n f d)) (decl_line t (mkx n f' d')).
+Proof. exact decl_lines_same_decl. Qed.
+Print Assumptions C06_decl_lines_same_decl.
+
+(* '#H pval .3e' (not asked for) declared before '#H beta .2f', '#V score g' before '#V weight d', no
+   order lines: beta = float('0.25'), weight = 3; the same with '.2f'/'d' and with '.1%'/'x' instead *)
+Example C06_exotic_format_example :
+  read xf_cfg None xf_file_sci = Ok (xf_expected, [])
+  /\ Forall2 same_line xf_file_sci xf_file_plain
+  /\ Forall2 same_line xf_file_sci xf_file_pct
+  /\ read xf_cfg None xf_file_plain = Ok (xf_expected, [])
+  /\ read xf_cfg None xf_file_pct = Ok (xf_expected, []).
+Proof. exact exotic_format_example. Qed.
+Print Assumptions C06_exotic_format_example.
+
+(* without the two declaration lines the same records bind beta to the p-value and weight to the score *)
+Example C06_dropped_declaration_misbinds :
+  read xf_cfg None (drop2 xf_file_sci)
+  = Ok ([(6, mkobj 72 [VStr 0; VInt 100; VInt 200; VStr 6; VFlt 8] [[VInt 100; VInt 101; VStr 13; VStr 14; VInt 12]])], []).
+Proof. exact dropped_declaration_misbinds. Qed.
+Print Assumptions C06_dropped_declaration_misbinds.
